@@ -380,6 +380,13 @@ Proof.
   - intros r w _. apply law_pick_nonneg.
 Qed.
 
+Corollary rd_step_prob_range : forall (p : profile) (ev : cand -> bool), nonneg_weights p ->
+  0 <= prob ev (law_rd_winner p) /\ prob ev (law_rd_winner p) <= mass (law_rd_winner p).
+Proof.
+  intros p ev H. pose proof (rd_step_nonneg p H) as Hn.
+  split; [apply prob_nonneg|apply prob_le_mass]; exact Hn.
+Qed.
+
 (* the closed form is the candidate's share of the first-place tally *)
 Theorem rd_closed_form_fpv : forall (p : profile) (d : scores) c q,
   wf_profile cand p -> first_place_votes cand ceqb p = inl d -> In (c, q) d ->
@@ -735,6 +742,17 @@ Theorem brd_single_script : forall (p : profile) (prev : estate) (st : mstate) u
 Proof.
   intros p prev st u rest c Hscr Hc. unfold Rules.brd_step, mbind, Core.next_draw.
   rewrite Hscr, Hc. reflexivity.
+Qed.
+
+Corollary brd_single : forall (p : profile) (d : scores) c,
+  cands p = [c] ->
+  mass (law_brd_winner p d) == 1 /\ prob (ceqb c) (law_brd_winner p d) == 1 /\
+  forall (prev : estate) (st : mstate) u rest, scr st = DUnit u :: rest ->
+    brd_step p prev st = elect_one c [] p prev (mkM rest (CUniform :: lg st)).
+Proof.
+  intros p d c Hc. destruct (brd_single_law p d c Hc) as (_ & Hm & Hp).
+  split; [exact Hm|]. split; [exact Hp|]. intros prev st u rest Hscr.
+  exact (brd_single_script p prev st u rest c Hscr Hc).
 Qed.
 
 (* u > 1/(c-1): the step IS a RandomDictator step on the advanced state *)
